@@ -12,6 +12,7 @@ import (
 	"strings"
 
 	"reservoir/proxy/responder"
+	"verifharness/e2elib"
 	"verifharness/emit"
 )
 
@@ -71,7 +72,7 @@ func c10Obs(raw []byte) string {
 }
 
 func runC10() {
-	slog.SetDefault(slog.New(slog.NewTextHandler(io.Discard, nil)))
+	slog.SetDefault(slog.New(e2elib.DebugDiscard{})) // every level enabled, nothing written
 	r := emit.NewRand(*flagSeed)
 	meta := emit.NewMeta("unit/C10", *flagSeed, *flagTier)
 	w := &emit.Writer{Dir: *flagOut, Prefix: "raw", ShardSize: 150,
